@@ -161,7 +161,12 @@ namespace
 void* virtual_memory_allocator::allocate_node(std::size_t size, std::size_t)
 {
     auto no_pages = calc_no_pages(size);
-    auto pages    = virtual_memory_reserve(no_pages);
+    if (no_pages > std::size_t(-1) / virtual_memory_page_size)
+        // the size of the pages in bytes would wrap around
+        FOONATHAN_THROW(
+            out_of_memory({FOONATHAN_MEMORY_LOG_PREFIX "::virtual_memory_allocator", nullptr},
+                          size));
+    auto pages = virtual_memory_reserve(no_pages);
     if (!pages || !virtual_memory_commit(pages, no_pages))
         FOONATHAN_THROW(
             out_of_memory({FOONATHAN_MEMORY_LOG_PREFIX "::virtual_memory_allocator", nullptr},
